@@ -1283,9 +1283,33 @@ class MediaEnv:
 
         tapped = threading.Semaphore(0)
 
+        self.decoder_dead = []        # (exception class, "decoder_worker") per decoder thread that would have died
+
         def tap_worker(loop_, input_q, output_q):
-            # synchronous tap instead of the decoder thread (the thread ends at once)
-            input_q.put = lambda item: env.decoded.append(item)
+            # synchronous stand-in for the decoder thread (the thread itself ends at once): what
+            # decoder_worker does per item - get_decoder() when the codec changes, decoder.decode(),
+            # no exception handling - is done at once with the real decoders; an exception there
+            # is the end of the real thread, after which nothing is consumed any more
+            from aiortc.codecs import get_decoder
+            state = {"name": None, "dec": None, "dead": False}
+
+            def put(item):
+                if state["dead"]:
+                    return
+                env.decoded.append(item)
+                if item is None:
+                    return
+                codec, frame = item
+                try:
+                    if codec.name != state["name"]:
+                        state["dec"] = get_decoder(codec)
+                        state["name"] = codec.name
+                    for _ in state["dec"].decode(frame):
+                        pass
+                except Exception as e:  # noqa
+                    state["dead"] = True
+                    env.decoder_dead.append((type(e).__name__, "decoder_worker"))
+            input_q.put = put
             env.taps += 1
             tapped.release()
         RX.decoder_worker = tap_worker
@@ -1867,6 +1891,7 @@ def media_case(case, full, guard):
             if any(h for _, _, h in tex):
                 timeout = True
             tex = [(n, f) for n, f, h in tex if not h]
+            tex += list(m.decoder_dead)          # the decoder thread died while handling the hostile datagram(s)
             step = {"op": "hostile", "sub": "media", "entry": "dtls._recv_next", "st": case["st"], "role": "receiver",
                     "len": len(data), "exc": exc, "fn": fn, "timeout": timeout, "work": res["work"],
                     "task_exc": tex[0][0] if tex else "none", "task_fn": tex[0][1] if tex else "none",
@@ -2436,7 +2461,7 @@ def run():
         }
         rep.assumptions = [
             "SRTP is an identity stub: datagrams libsrtp would reject also reach _handle_rtp_data/_handle_rtcp_data",
-            "the decoder threads are replaced by a synchronous tap (no media is decoded)",
+            "the decoder threads are replaced by a synchronous stand-in that performs decoder_worker's per-item work (get_decoder, decode, no exception handling) with the real decoders",
             "the step budget counts profile events (Python and C calls/returns); loops without any call are only caught by the %.0f s CPU backstop" % CPU_BACKSTOP,
             "exemptions (Hostile.tla Exempt): correctly tagged ABORT/SHUTDOWN(-COMPLETE), ERROR during set-up, INIT at a listening server, INIT-ACK in cookie-wait, BYE for a received SSRC, reset of the probe streams",
             "after an accepted hostile DATA / FORWARD-TSN the real peer's next TSN is moved behind the TSNs the hostile sender used and holes are filled with valid chunks (the peer did not send the hostile datagram)",
